@@ -33,6 +33,9 @@ def run(chk):
                        paths_q=40, walks_q=10)
     # sub-quiescence schedules: a body finishes, the loop is held up across the timeout deadline, then resumes
     items += eg.collect(chk, ["outcomes"], timeout_advance=True, drain=False, paths_q=25, walks_q=6, batch=True)
+    # cancelled while nothing runs or is queued: the run only waits for an event (ctx.wait_for_event) or holds a partly
+    # filled collect buffer -- the resumed run must go on from there as well
+    items += eg.collect(chk, ["wait", "collect"], allow_cancel=True, p_cancel=0.15, drain=False, paths_q=12, walks_q=4)
     items = [it for it in items if it[0] != "retry policy raises"]
     out = []
     nres = 0
